@@ -605,6 +605,40 @@ def _f64_methods(e, c, a):
     raise Unsupported('f64 method ' + meth)
 
 
+@model(r'(?:core|std)::f(?:32|64)::<impl f(?:32|64)>::(fract|trunc|floor|ceil|round|abs|is_nan|is_finite|is_infinite|signum)', 'float methods on concrete values (values of f32 are kept as the exact double)')
+def _float_methods_conc(e, c, a):
+    import math
+    meth = c.rsplit('::', 1)[1]
+    x = a[0]
+    if not x.is_conc():
+        raise Unsupported('float method %s on a symbolic value' % meth)
+    v = x.t
+    if meth == 'is_nan':
+        return math.isnan(v)
+    if meth == 'is_finite':
+        return math.isfinite(v)
+    if meth == 'is_infinite':
+        return math.isinf(v)
+    if math.isnan(v):
+        return Float(v)
+    if meth == 'abs':
+        return Float(abs(v))
+    if meth == 'signum':
+        return Float(math.copysign(1.0, v))
+    if math.isinf(v):
+        return Float(float('nan') if meth == 'fract' else v)
+    if meth == 'trunc':
+        return Float(float(math.trunc(v)))
+    if meth == 'fract':
+        return Float(v - math.trunc(v))
+    if meth == 'floor':
+        return Float(float(math.floor(v)))
+    if meth == 'ceil':
+        return Float(float(math.ceil(v)))
+    r = math.floor(abs(v) + 0.5)
+    return Float(math.copysign(r, v))
+
+
 # ---------------------------------------------------------------- cmp / ord
 @model(r'<(u8|u16|u32|u64|usize|i8|i16|i32|i64|isize|char) as Ord>::(max|min|cmp|clamp)', 'int Ord')
 def _ord_minmax(e, c, a):
